@@ -29,6 +29,9 @@ def gen_dataset(r, dmax=6, kind=None, tuples=True, unknown=False, big=False, tin
   desc = dict(kind=kind or "blobs", seed=r.randrange(10**6), n=n, d=d, classes=c,
               extra=r.choice([0, 0, 5]), cond=r.choice([1, 10, 100]),
               scale=r.choice([0, 0, 0.5, 1]), sep=r.choice([1.0, 2.0, 4.0]))
+  if r.random() < 0.25:        # class labels are arbitrary non-negative integers
+    desc["label_stride"] = r.choice([1, 2, 5])
+    desc["label_offset"] = r.choice([1, 3, 10])
   if tiny_scale_p and r.random() < tiny_scale_p:
     desc["global_scale"] = r.choice([1e-6, 1e-9, 1e4])
   if tuples:
